@@ -149,7 +149,7 @@ func (c RawConfiguration) handleCorrectableCall(ctx context.Context, corr *Corre
 	for {
 		if (state.data.ServerStream && len(errs) == state.expectedReplies) ||
 			(!state.data.ServerStream && len(errs)+len(replies) == state.expectedReplies) {
-			corr.set(resp, clevel, QuorumCallError{cause: Incomplete, errors: errs, replies: len(replies)}, true)
+			corr.set(resp, clevel, QuorumCallError{cause: incompleteCause(ctx), errors: errs, replies: len(replies)}, true)
 			return
 		}
 		select {
